@@ -320,6 +320,12 @@ func (e *c10Env) aggVars() []aggVar {
 		out = append(out, aggVar{fmt.Sprintf("AggQC{%s sig=genuine}", m.name), &hotstuffpb.AggQC{QCs: m.m, Sig: good, View: v}, true})
 		out = append(out, aggVar{fmt.Sprintf("AggQC{%s sig=genuine view=max}", m.name), &hotstuffpb.AggQC{QCs: m.m, Sig: good, View: math.MaxUint64}, true})
 	}
+	// a genuine aggregate of replicas 2,3,4 each attesting the (signature-less) genesis QC
+	var sg []hotstuff.QuorumSignature
+	for _, i := range []int{1, 2, 3} {
+		sg = append(sg, e.c.SignBytes(msgFor(hotstuff.ID(i+1), fix.GenesisQC()), i)...)
+	}
+	out = append(out, aggVar{"AggQC{all-genesis sig=genuine}", &hotstuffpb.AggQC{QCs: map[uint32]*hotstuffpb.QuorumCert{2: gq, 3: gq, 4: gq}, Sig: hotstuffpb.QuorumSignatureToProto(e.c.Combine(sg...)), View: v}, true})
 	return out
 }
 
@@ -359,6 +365,30 @@ func (e *c10Env) messages(quick bool) []c10Msg {
 					t.svc.Propose(ctx, w)
 				}
 			}, !qc.valid && !agg.valid})
+			}
+		}
+	}
+	// proposals carrying a fully or partly genuine aggregate QC, with every block-QC variant (the block QC
+	// is compared with the aggregate's high QC before either is known to be well-formed)
+	if e.c.Cfgs[0].HasAggregateQC() {
+		for _, agg := range aggs {
+			if !agg.valid || !strings.Contains(agg.name, "sig=genuine}") {
+				continue
+			}
+			for qi, qc := range qcs {
+				for vi, v := range []uint64{uint64(e.curView), uint64(e.curView) + 1} {
+					if quick && (qi+vi)%2 != 0 && !strings.Contains(qc.name, "hash=known") && !strings.Contains(qc.name, "hash=genesis") {
+						continue
+					}
+					k := e.bK.Hash()
+					pb := &hotstuffpb.Proposal{Block: &hotstuffpb.Block{Parent: k[:], QC: qc.pb, View: v, Commands: batches[2], Proposer: 2, Timestamp: timestamppb.New(time.Unix(1700000000, 5))}, AggQC: agg.pb}
+					ms = append(ms, c10Msg{"propose", fmt.Sprintf("Proposal{parent=known %s view=%d %s}", qc.name, v, agg.name),
+						func(t *c10Target, ctx context.Context) {
+							if w, ok := onWire(pb, &hotstuffpb.Proposal{}); ok {
+								t.svc.Propose(ctx, w)
+							}
+						}, false})
+				}
 			}
 		}
 	}
